@@ -119,19 +119,6 @@ def oneline(tree):
     return text
 
 
-def sig_doc(label, tree):
-    """the document part of a signature.  Strings shaped like another lexical class of their slot (space S5) are one finding per
-    string, whatever the slot: the failing slots are listed in the replay file and the evidence"""
-    line = oneline(tree)
-    if "shaped like another class" in (label or ""):
-        import re
-
-        m = re.search(r' "([^"]*)" END$', line)
-        if m:
-            return 'quoted string "%s" in a slot that also admits an expression, regular expression or attribute' % m.group(1)
-    return line
-
-
 def diff_kind(msg):
     """coarse class of a strict_diff message"""
     if msg is None:
